@@ -9,6 +9,7 @@ use std::fs::{File, create_dir_all};
 use std::time::SystemTime;
 use std::io::Write;
 use std::mem::size_of;
+use std::collections::HashSet;
 
 macro_rules! heap_log {
     (START -> $file:expr) => {
@@ -450,7 +451,46 @@ impl Pointer {
     }
 
     pub fn evaluate_as_string(&self, heap: &Heap) -> Result<String> { // TODO trait candidate
+        self.ensure_does_not_contain_itself(heap)?;
         self.evaluate_as_string_within(heap, &mut Vec::new())
+    }
+
+    // Rendering recurses once per level of nesting, so a long cycle would exhaust the native
+    // stack before the renderer comes back around to where it started. The value is therefore
+    // walked once up front with an explicit agenda: `open` is the chain of heap objects the walk
+    // is currently inside, `done` are the ones whose contents were already found to be fine.
+    fn ensure_does_not_contain_itself(&self, heap: &Heap) -> Result<()> {
+        enum Visit { Enter(HeapIndex), Leave(HeapIndex) }
+        let mut open: HashSet<HeapIndex> = HashSet::new();
+        let mut done: HashSet<HeapIndex> = HashSet::new();
+        let mut agenda: Vec<Visit> = Vec::new();
+        if let Pointer::Reference(index) = self {
+            agenda.push(Visit::Enter(*index));
+        }
+        while let Some(visit) = agenda.pop() {
+            match visit {
+                Visit::Leave(index) => {
+                    open.remove(&index);
+                    done.insert(index);
+                }
+                Visit::Enter(index) if done.contains(&index) => {}
+                Visit::Enter(index) => {
+                    ensure!(!open.contains(&index), "Cannot convert `{}` to a string: it contains itself.", index);
+                    open.insert(index);
+                    agenda.push(Visit::Leave(index));
+                    let contents: Vec<&Pointer> = match heap.dereference(&index)? {
+                        HeapObject::Array(array) => array.0.iter().collect(),
+                        HeapObject::Object(object) => std::iter::once(&object.parent).chain(object.fields.values()).collect(),
+                    };
+                    for pointer in contents {
+                        if let Pointer::Reference(index) = pointer {
+                            agenda.push(Visit::Enter(*index));
+                        }
+                    }
+                }
+            }
+        }
+        Ok(())
     }
 
     // `path` holds the heap objects currently being rendered, so that a value that contains
